@@ -485,6 +485,27 @@ fn history(i: usize, cfg: &Cfg, recs: &[SolarRec], kinds: &[LunarKind], log: &mu
   log.count("history.sequences", 1);
 }
 
+/// all worker threads step through the holiday table at the same time, each from records of other years
+fn holiday_storm(i: usize, cfg: &Cfg, recs: &[HolRec], log: &mut Log) {
+  let mut rng = Rng::new(mix(cfg.seed, i as u64 ^ 0x4C20));
+  let k = (i * 37 + rng.below(5)) % recs.len();
+  let r = recs[k];
+  let n = *rng.pick(&[1i64, -1, 1, -1, 2, -2, 40, -40, 7, -7, 0]);
+  let j = k as i64 + n;
+  let want = if j >= 0 && (j as usize) < recs.len() { Some((recs[j as usize].y, recs[j as usize].m, recs[j as usize].d)) } else { None };
+  log.ev(1);
+  log.count("holiday.concurrent_steps", 1);
+  let key = format!("{:04}-{:02}-{:02}", r.y, r.m, r.d);
+  match guard(|| LegalHoliday::from_ymd(r.y as isize, r.m as usize, r.d as usize).and_then(|h| h.next(n as isize)).map(|h| ymd(&h.get_day()))) {
+    Ok(got) => {
+      if got != want {
+        log.violate(format!("C20/holiday-next-concurrent/{}_step_{:+}", key, n), "LegalHoliday::next while other threads step in other years", key.clone(), format!("{:?}", got), format!("{:?}", want));
+      }
+    }
+    Err(msg) => log.violate(format!("C20/holiday-next-concurrent/{}_step_{:+}", key, n), "LegalHoliday::next while other threads step in other years", key.clone(), format!("panic: {}", msg), format!("{:?}", want)),
+  }
+}
+
 fn holidays(cfg: &Cfg, log: &mut Log) {
   let recs = match parse_holidays() {
     Ok(r) => r,
@@ -494,6 +515,12 @@ fn holidays(cfg: &Cfg, log: &mut Log) {
     }
   };
   log.count("holiday.records", recs.len() as u64);
+  {
+    let nst = cfg.tier.pick(60_000usize, 600_000usize);
+    let recs_ref = &recs;
+    log.merge(par_range(nst, 4, |i, l| holiday_storm(i, cfg, recs_ref, l)));
+    log.floor("holiday.concurrent_steps", cfg.tier.pick(50_000, 500_000));
+  }
   let by_dn: BTreeMap<i64, HolRec> = recs.iter().map(|r| (r.dn, *r)).collect();
   for (k, r) in recs.iter().enumerate() {
     log.ev(1);
@@ -705,7 +732,7 @@ pub fn run(cfg: &Cfg) -> (Log, Meta) {
   log.floor("holiday.membership_dates", 14_000);
   let meta = Meta {
     rule: format!(
-      "civil festivals: every date of 1900..2100 (found <=> month-day in the table and year >= founding year; index, name, start year, type), from_index for every (year, index) of {} years and an index past the list, next(n) for 8 step counts from every founded festival; lunar festivals: from_index for every (year, index 0..12) of {} years (falls on the oracle's day: fixed lunar date, Qingming / winter-solstice term day via the enumerated months, last day of the year; its day's own lookup returns it or an earlier-listed festival sharing the day; term index), next(n) for n in {{-14,-13,-1,0,1,12,13,14,27}} on 1/7 of the years, and every lunar date of {} years of 1900..2100 by date (found <=> the oracle says so, leap months never); history: every pair of (year, index) whose decimal concatenation in either order coincides, and (on 1/10 of the years in quick, all in thorough) whose year*K+index coincide for K in 8, 10, 12, looked up back to back in alternating order, and the month/day pairs (1,1k)/(11,k), (1,2k)/(12,k) back to back in both orders in every by-date year, and seeded single-thread sequences of 6..16 festival look-ups (civil by date, lunar by date, both by index) on days related to the previous one; holidays: all records of the raw table (13-character parse, real dates, strictly increasing, offset lands on a rest-day record, returned by from_ymd / get_legal_holiday with flag and name), next(n) for 0, +-1 and 2-4 seeded n from every record, full forward and backward walks, membership of every date 1995..2035, and every date whose digits occur misaligned across a record border. Oracle parsers are the harness' own.",
+      "civil festivals: every date of 1900..2100 (found <=> month-day in the table and year >= founding year; index, name, start year, type), from_index for every (year, index) of {} years and an index past the list, next(n) for 8 step counts from every founded festival; lunar festivals: from_index for every (year, index 0..12) of {} years (falls on the oracle's day: fixed lunar date, Qingming / winter-solstice term day via the enumerated months, last day of the year; its day's own lookup returns it or an earlier-listed festival sharing the day; term index), next(n) for n in {{-14,-13,-1,0,1,12,13,14,27}} on 1/7 of the years, and every lunar date of {} years of 1900..2100 by date (found <=> the oracle says so, leap months never); history: every pair of (year, index) whose decimal concatenation in either order coincides, and (on 1/10 of the years in quick, all in thorough) whose year*K+index coincide for K in 8, 10, 12, looked up back to back in alternating order, and the month/day pairs (1,1k)/(11,k), (1,2k)/(12,k) back to back in both orders in every by-date year, and seeded single-thread sequences of 6..16 festival look-ups (civil by date, lunar by date, both by index) on days related to the previous one; holidays: all records of the raw table (13-character parse, real dates, strictly increasing, offset lands on a rest-day record, returned by from_ymd / get_legal_holiday with flag and name), next(n) for 0, +-1 and 2-4 seeded n from every record, full forward and backward walks, steps of 0, +-1, +-2, +-7, +-40 from records of different years on all worker threads at once, membership of every date 1995..2035, and every date whose digits occur misaligned across a record border. Oracle parsers are the harness' own.",
       match cfg.tier {
         Tier::Thorough => 9998,
         Tier::Quick => 630,
